@@ -15,3 +15,4 @@ for k, f in prog.funcs.items():
             print("   W", loc, r, cond, "uncertain" if getattr(w, "uncertain", False) else "")
         print("   rets ", sorted(s.rets, key=str))
         print("   hrets", sorted(s.hrets, key=str))
+        print("   pstores", sorted(s.pstores))
